@@ -801,6 +801,53 @@ def check_reissue(case):
     return []
 
 
+STORE_REISSUE_CASES = [{'below': below, 'ops': ops} for below in ([], ['pool'], ['a', 'b'])
+                       for ops in (['delete'], ['add'], ['add', 'delete'])]
+
+
+def check_store_reissue(case):
+    """the Store entry point: ONE directive dict applied to two fresh, equal hierarchies is carried out both times, all other
+    nodes keep identity and value, and the caller's dict is what it was"""
+    import copy as _copy
+    from vivarium.core.store import Store
+    inner = {}
+    if 'delete' in case['ops']:
+        inner['_delete'] = ['x']
+    if 'add' in case['ops']:
+        inner['_add'] = [{'key': 'z', 'state': {'count': 3}}]
+    directive = inner
+    for name in reversed(case['below']):
+        directive = {name: directive}
+    before = _copy.deepcopy(directive)
+    fails = []
+    for attempt in (1, 2):
+        schema = {'x': {'count': {'_default': 1}}, 'y': {'count': {'_default': 7}}}
+        for name in reversed(case['below']):
+            schema = {name: schema, 'side': {'_default': 0}}
+        try:
+            store = Store(schema)
+            store.apply_defaults()
+            node = store.get_path(tuple(case['below']))
+            bystander = node.inner['y']
+            store.apply_update(directive)
+        except Exception as e:
+            return ['use %d of one directive dict raised %s: %s' % (attempt, type(e).__name__, str(e)[:160])]
+        want = {'y': {'count': 7}}
+        if 'delete' not in case['ops']:
+            want['x'] = {'count': 1}
+        if 'add' in case['ops']:
+            want['z'] = {'count': 3}
+        got = node.get_value()
+        if got != want:
+            fails.append('use %d of one directive dict %r below %s: the compartment is %r, expected %r (directive is now %r)'
+                         % (attempt, before, case['below'], got, want, directive))
+        if node.inner.get('y') is not bystander:
+            fails.append('use %d: bystander y lost its identity' % attempt)
+    if directive != before:
+        fails.append('the directive handed to Store.apply_update was modified: %r -> %r' % (before, directive))
+    return fails[:3]
+
+
 def main():
     ap = argparse.ArgumentParser()
     ap.add_argument('--prop', required=True)
@@ -810,7 +857,7 @@ def main():
     if a.replay:
         rec = json.load(open(a.replay))
         h = rec['scenario']
-        fails = check_generate_subschema(h['how']) if rec.get('kind') == 'subschema' else check_store_entry_views() if rec.get('kind') == 'storeentry' else check_reissue(h) if rec.get('kind') == 'reissue' else check_cargo_move(h['target'], h['cargo']) if rec.get('kind') == 'cargo' else (check_moved_views(h) if rec.get('kind') == 'moved' else check_history(h, a.prop))
+        fails = check_store_reissue(h) if rec.get('kind') == 'storereissue' else check_generate_subschema(h['how']) if rec.get('kind') == 'subschema' else check_store_entry_views() if rec.get('kind') == 'storeentry' else check_reissue(h) if rec.get('kind') == 'reissue' else check_cargo_move(h['target'], h['cargo']) if rec.get('kind') == 'cargo' else (check_moved_views(h) if rec.get('kind') == 'moved' else check_history(h, a.prop))
         L.emit_result({'status': 'reproduced' if fails else 'not-reproduced', 'failed': fails})
         return
     n = {'quick': 150, 'thorough': 5000}[a.tier]
@@ -878,6 +925,15 @@ def main():
             if fails:
                 rp = L.write_replay(a.out, a.prop, 'reissue%d' % ci, case, fails, kind='reissue', extra={'driver': 'bounded.struct'})
                 failures.append({'id': '%s.bounded.reissue#%d: %s' % (a.prop, ci, fails[0][:260]), 'replay': rp})
+        for ci, case in enumerate(STORE_REISSUE_CASES):
+            if len(failures) >= 3:
+                break
+            evaluations += 1
+            fails = check_store_reissue(case)
+            distinct.add('storereissue-%d' % ci)
+            if fails:
+                rp = L.write_replay(a.out, a.prop, 'storereissue%d' % ci, case, fails, kind='storereissue', extra={'driver': 'bounded.struct'})
+                failures.append({'id': '%s.bounded.store-reissue#%d: %s' % (a.prop, ci, fails[0][:260]), 'replay': rp})
     L.emit_result({'status': 'violated' if failures else 'ok', 'evaluations': evaluations,
                    'distinct_nontrivial': len(distinct), 'failures': failures, 'samples': samples,
                    'rule': 'seeded random structural histories; non-trivial = >= 2 operations; distinct by (initial size, script)'})
